@@ -3,7 +3,7 @@
    Codec/FrameInspectProofs.v).  Each theorem is followed by Print Assumptions. *)
 From Coq Require Import ZArith List Bool.
 From ZV.Gen Require Gen_Tables.
-From ZV.Mem Require Import CompressBound CompressBoundProofs CompressCalls CompressCallsProofs CompressSplit CompressSplitProofs CompressCallsKb.
+From ZV.Mem Require Import CompressBound CompressBoundProofs CompressCalls CompressCallsProofs CompressSplit CompressSplitProofs CompressCallsKb CompressMtKb.
 From ZV.Codec Require Import FrameInspect FrameInspectProofs FrameInspectRobust.
 Import ListNotations.
 Local Open Scope Z_scope.
@@ -412,3 +412,54 @@ Print Assumptions buffer_less_history_sufficient_weak_contract.
 Theorem weak_history_hypotheses_inhabited : Forall (call_ok_kb (Z.to_nat 200000) 131072) [raw_call 100000; raw_call 5].
 Proof. exact calls_kb_satisfiable. Qed.
 Print Assumptions weak_history_hypotheses_inhabited.
+
+(* ======================= round 3: multi-threading under the WEAK block contract (coq/Mem/CompressMtKb.v) ======================= *)
+
+(* theorem 15 (mt_job_buffer_suffices) assumed cSize <= 3 + len per frame-loop block; here every block of every 512 KiB
+   chunk may cost len + 3 * max(1, len >> 10) (bc_contract_kb, what the capped post-splitter guarantees): a ZSTDMT job
+   writing into ZSTD_compressBound(T) bytes (T >= its source size) is never CTooSmall and the checksum that
+   ZSTDMT_flushProduced stores without a capacity test is never COverrun; the output is at most
+   header + n + 3 * (KiB partitions of the chunks) + last empty block + checksum *)
+Theorem mt_job_buffer_suffices_weak_contract : forall fuel bsMax hs chkFrame first last calls n T,
+  Forall (fun c => bc_contract_kb (c_bc c) /\ split_contract (c_split c)) calls ->
+  map c_len calls = mt_chunks n ->
+  0 <= n <= T -> T < MAX_INPUT -> MT_CHUNK <= Z.of_nat fuel ->
+  0 < bsMax <= BLOCKSIZE_MAX -> (BLOCKSIZE_MAX_MIN <= bsMax \/ n <= bsMax) ->
+  0 <= hs <= FHS_MAX ->
+  (last = false -> 0 < n) ->
+  exists w cap' st',
+    mt_job fuel bsMax hs chkFrame first last calls n (bound T) = CDone w cap' st' /\
+    cap' = bound T - w /\ 0 <= cap' /\ w <= mt_job_worst_kb hs chkFrame first last n.
+Proof. exact mt_job_fits_kb_lemma. Qed.
+Print Assumptions mt_job_buffer_suffices_weak_contract.
+
+(* the KiB partitions a job can be charged for: one call per 512 KiB chunk, each call at most one more than its full KiB *)
+Theorem mt_job_partitions_bound : forall n, 0 <= n ->
+  0 <= chunks_kb n <= n / 1024 + n / 524288 + 1 /\ (n = 0 -> chunks_kb n = 0).
+Proof. exact chunks_kb_bound. Qed.
+Print Assumptions mt_job_partitions_bound.
+
+(* theorem 17 (mt_frame_fits_compressBound) under the weak contract: header + every job paying 3 bytes per KiB partition
+   of every chunk + last empty block + checksum <= ZSTD_compressBound(sum of the jobs), for every cut into jobs of at
+   least 128 KiB (all but the last); no hypothesis on the block size is left (the weak cost does not depend on it) *)
+Theorem mt_frame_fits_compressBound_weak_contract : forall hs chk jobs,
+  hs <= FHS_MAX -> jobs_ok jobs -> sumz jobs < MAX_INPUT ->
+  mt_frame_worst_kb hs chk true jobs <= bound (sumz jobs).
+Proof. exact mt_frame_worst_kb_le_bound. Qed.
+Print Assumptions mt_frame_fits_compressBound_weak_contract.
+
+(* hypotheses satisfiable (all-raw calls), and a closed instance in which the weak contract really is reached: a block
+   compressor charging 3 bytes per full KiB makes a 300000-byte last job 867 bytes larger than the strong worst case *)
+Theorem mt_weak_hypotheses_inhabited : forall n,
+  Forall (fun c => bc_contract_kb (c_bc c) /\ split_contract (c_split c)) (map raw_call (mt_chunks n)) /\
+  map c_len (map raw_call (mt_chunks n)) = mt_chunks n.
+Proof. exact raw_calls_ok_kb. Qed.
+Print Assumptions mt_weak_hypotheses_inhabited.
+
+Theorem mt_job_weak_contract_witness :
+  mt_job (Z.to_nat 600000) 131072 6 true true true [mk_call 300000 bc_kb_worst (split_const KB128)] 300000 (bound 524288)
+  = CDone (6 + 300000 + 3 * (128 + 128 + 36) + 4) (bound 524288 - (6 + 300000 + 3 * (128 + 128 + 36) + 4))
+          (mk_cstate StEnding 300000 (300000 + 3 * (128 + 128 + 36) + 6))
+  /\ mt_job_worst 131072 6 true true true 300000 = 6 + 300000 + 3 * 3 + 4.
+Proof. exact mt_job_weak_costs_more. Qed.
+Print Assumptions mt_job_weak_contract_witness.
